@@ -418,7 +418,13 @@ def b_list(ex, e, st):
     if v.ty in ('list', 'tuple'):
         return ex.new_list(st, ex.seq_of(st, v), 'list')
     if v.ty in ('dict', 'set'):
-        return ex.new_list(st, z3.Select(ex.harr(st, '$dkeys'), rv(v.t)), 'list')
+        q = z3.Select(ex.harr(st, '$dkeys'), rv(v.t))
+        has = z3.Select(ex.harr(st, '$dhas'), rv(v.t))
+        # a dict's key order lists exactly its keys, each once (dict well-formedness, assumed of every dict object)
+        i, j = z3.Int(fresh_name('ki')), z3.Int(fresh_name('kj'))
+        st.assume(z3.ForAll([i], z3.Implies(z3.And(0 <= i, i < z3.Length(q)), z3.Select(has, q[i]))))
+        st.assume(z3.ForAll([i, j], z3.Implies(z3.And(0 <= i, i < j, j < z3.Length(q)), q[i] != q[j])))
+        return ex.new_list(st, q, 'list')
     raise OutOfSubset('list() of %s' % v.ty)
 
 
@@ -1131,9 +1137,16 @@ def apply_contract(ex, c, finfo, recv, args, kw, e, st, env=None, pnames=None, e
         est = st.fork()
         eview = State(); eview.env = env; eview.heap, eview.pc, eview.alloc = est.heap, est.pc, est.alloc
         saved = ex.old_state if hasattr(ex, 'old_state') else None
+        excval = None
+        if c.ensures_raise.get(exc):
+            # the exception object the callee raises: a fresh object about which its contract speaks as `exc`
+            excval = Val(ex.new_obj(est, exc), exc if '.' not in exc else 'obj:' + exc)
+            eview.alloc = est.alloc
+            eview.env = dict(env); eview.env['exc'] = excval
+            eview.heap, eview.pc = est.heap, est.pc
         for cl in c.ensures_raise.get(exc, []):
             est.assume(ex.spec(cl, eview, old=pre))
-        ex.pending.append(Outcome('raise', est, exc=exc, site='call %s@%d' % (short, getattr(e, 'lineno', 0))))
+        ex.pending.append(Outcome('raise', est, exc=exc, val=excval, site='call %s@%d' % (short, getattr(e, 'lineno', 0))))
     if c.raises_any:
         est = st.fork()
         ex.pending.append(Outcome('raise', est, exc='ANY', site='call %s@%d' % (short, getattr(e, 'lineno', 0))))
